@@ -1,6 +1,8 @@
 (* C19 — key seeding survives short reads and transient entropy-source failures.  Statements only (RandBytes.v). *)
-From Coq Require Import List Arith.
+From Coq Require Import List Arith ZArith.
 From NTT Require Import RandBytes.
+From NTT Require RandBytesSrc OsSem.
+From NTT.gen Require GenOs.
 
 (* one call, any event list on which it completes: exactly xlen bytes, exactly those delivered, in order; <= 1 successful open *)
 Theorem C19_one_call : forall evs s xlen s' out rest, Inv s -> randombytes evs s xlen = Some (s', out, rest) ->
@@ -20,3 +22,22 @@ Theorem C19_progress : forall k reads s xlen, fd_open s = false -> forallb unit_
   randombytes (repeat OpenFail k ++ OpenOk :: reads) s xlen <> None.
 Proof. exact call_progress. Qed.
 Print Assumptions C19_progress.
+
+(* nfl::randombytes OF THE SOURCE (lib/prng/randombytes.cpp), translated by tools/cxxos2coq.py on every run into gen/GenOs.v: the program
+   state is a record (the static descriptor fd, the buffer x with its offset, xlen, i, the script of OS answers still to come, the number
+   of sleeps); `for (;;)` with `break`, `while` with `continue` are the fuelled loops of OsSem.v; open(2) / read(2) consume one scripted
+   answer each (a read delivers at most `count` bytes, stored at x); integer conversions follow the C types.  On every script on which the
+   model above completes, the translated function completes (fuel: one iteration per answer), consumes the same answers, sleeps as often,
+   ends with the descriptor open and xlen = 0, and x[0 .. xlen) holds exactly the model's output -- so C19_one_call / C19_all_calls are
+   statements about the translated source. *)
+Theorem C19_source_randombytes : forall evs (s : GenOs.st) hs xlen hs' out rest', List.Forall RandBytesSrc.ev_ok evs -> GenOs.w_os s = evs ->
+  (GenOs.v_xlen s = Z.of_nat xlen)%Z -> (Z.of_nat xlen < 2 ^ 62)%Z ->
+  (0 <= GenOs.o_x s)%Z -> (GenOs.o_x s + Z.of_nat xlen <= Z.of_nat (length (GenOs.b_x s)))%Z ->
+  fd_open hs = negb (GenOs.v_fd s =? -1)%Z ->
+  randombytes (List.map RandBytesSrc.tr evs) hs xlen = Some (hs', out, rest') ->
+  forall fuel, length evs < fuel ->
+  exists s', GenOs.gen_randombytes fuel s = Some (OsSem.Norm s') /\ (GenOs.v_xlen s' = 0)%Z /\ (GenOs.v_fd s' <> -1)%Z /\ List.map RandBytesSrc.tr (GenOs.w_os s') = rest' /\ length out = xlen /\
+    GenOs.b_x s' = (firstn (Z.to_nat (GenOs.o_x s)) (GenOs.b_x s) ++ List.map Z.of_nat out ++ skipn (Z.to_nat (GenOs.o_x s) + xlen) (GenOs.b_x s))%list /\
+    (GenOs.o_x s' = GenOs.o_x s + Z.of_nat xlen)%Z /\ (GenOs.w_sleeps s' = GenOs.w_sleeps s + Z.of_nat (sleeps hs' - sleeps hs))%Z.
+Proof. exact RandBytesSrc.source_randombytes. Qed.
+Print Assumptions C19_source_randombytes.
